@@ -168,7 +168,9 @@ fn lattice_case(idx: u64, rng: &mut Rng) -> NetCfg {
     // extent 1..10, kernel 1..4, stride 1..3, padding 0..3, dilation 1..3 -> 10*4*3*4*3 = 1440
     let t = |j: usize| (1 + j % 10, 1 + (j / 10) % 4, 1 + (j / 40) % 3, (j / 120) % 4, 1 + (j / 480) % 3);
     let (h, k0, s0, p0, d0) = t(i % 1440);
-    let (w, k1, s1, p1, d1) = t((i * 487 + i / 1440 * 131 + 77) % 1440);
+    // for a fixed axis-0 tuple the axis-1 tuple runs through all 1440 residues as i / 1440 grows:
+    // the thorough tier (3 * 1440 * 1440 cases) enumerates the full product
+    let (w, k1, s1, p1, d1) = t((i / 1440 + (i % 1440) * 487 + 77) % 1440);
     let c = rng.range(1, 2);
     let filters = rng.range(1, 2);
     let l = match kind {
@@ -330,7 +332,7 @@ impl Monitor for C08 {
         "C08"
     }
     fn gens(&self, tier: Tier) -> Vec<(&'static str, u64)> {
-        vec![("lattice", tier.pick(4320 * 3, 4320 * 60)), ("sequences", tier.pick(1500, 40_000)), ("flat_sizes", 1100), ("flatten", tier.pick(300, 3000))]
+        vec![("lattice", tier.pick(4320 * 150, 3 * 1440 * 1440)), ("sequences", tier.pick(75_000, 750_000)), ("flat_sizes", 1100), ("flatten", tier.pick(15_000, 150_000))]
     }
     fn rule(&self) -> &'static str {
         "lattice: single conv/deconv/pool layers; axis 0 enumerates (extent 1..10, kernel 1..4, stride 1..3, padding 0..3, dilation 1..3) completely, axis 1 follows a covering walk over the same 1440 tuples; configurations invalid by the standard formulas are skipped (counted); for the others: the `inputs -> outputs` line of the network's Display == closed form (conv floor((i+2p-d(k-1)-1)/s)+1, deconv (i-1)s-2p+k, pool floor((i-k)/s)+1) == shape field and nesting of the tensors forward produces, and every weight/bias/kernel gradient of the hooked backward has the shape of its parameter. sequences: random networks of depth 1..5 with all transitions. flat_sizes: EVERY flat size n = 1..1100 x {conv, deconv, pool}: accepted iff n is a perfect square, then read as 1 x r x r in row-major order (index-valued input through 1x1 identity layers); network-level (dense(n) followed by the spatial layer) for n <= 150. flatten: spatial output into identity dense layer must arrive in row-major order."
